@@ -28,3 +28,9 @@ Definition stmt_psd_svec_isometry : Prop :=
 Definition stmt_psd_diag_index : Prop :=
   forall n (M : nat -> nat -> R) k, (k < n)%nat ->
     nth (triangular_index k) (mat_to_svec OpsR n M) 0 = M k k.
+
+(** scaled_unit_shift on the packed vector adds α to the diagonal of the matrix and nothing else *)
+Definition stmt_psd_unit_shift_mat : Prop :=
+  forall n (z : list R) a i j, length z = (n * (n + 1) / 2)%nat -> (i < n)%nat -> (j < n)%nat ->
+    svec_to_mat OpsR (psd_scaled_unit_shift OpsR n z a) i j
+    = svec_to_mat OpsR z i j + (if Nat.eqb i j then a else 0).
